@@ -115,7 +115,7 @@ def gen_cases(rng, tier):
         elif r == 6:
             c = {"kind": "draw_none", "h": gens.hist(rng, max_faces=5, style="small"), "pick": rng.randint(0, 5)}
         elif r == 7:
-            c = {"kind": "accumulate", "h": h, "other": gens.hist(rng, max_faces=5)}
+            c = {"kind": "accumulate", "h": h, "other": gens.hist(rng, max_faces=5), "other_form": rng.choice(["H", "H", "P", "P", "dict", "pairs_iter"])}
             if len(h) >= 3 and rng.random() < 0.4:
                 # same number of outcomes, same lowest and highest outcome, different ones in between
                 mid = sorted({Fraction(*o) + Fraction(1, 2) for o, _ in h[1:-1]})
@@ -123,7 +123,12 @@ def gen_cases(rng, tier):
                 if len(mid) == len(h) - 2:
                     c["other"] = [[h[0][0], rng.randint(0, 3)]] + [[gens.q(m), rng.randint(1, 3)] for m in mid] + [[h[-1][0], rng.randint(0, 3)]]
         elif r == 8:
-            c = {"kind": "zero_fill", "h": h, "outs": [gens.outcome(rng) for _ in range(rng.randint(0, 5))]}
+            c = {"kind": "zero_fill", "h": h, "outs": [gens.outcome(rng) for _ in range(rng.randint(0, 5))],
+                 "outs_style": rng.choice(["list", "iter", "generator", "map", "tuple"])}
+            if rng.random() < 0.4 and h:
+                # mostly outcomes the histogram already has, a missing one somewhere in between
+                c["outs"] = [o for o, _ in h] + [gens.outcome(rng)] + [o for o, _ in h][:1]
+                rng.shuffle(c["outs"])
             if len(h) >= 3 and rng.random() < 0.4:
                 lo, hi = Fraction(*h[0][0]), Fraction(*h[-1][0])
                 c["outs"] = [h[0][0], h[-1][0]] + [gens.q(lo + (hi - lo) * Fraction(j, 7)) for j in rng.sample(range(1, 7), len(h) - 2)]
@@ -180,9 +185,21 @@ def _impl_op(case, h):
                 dyce.rng.RNG = old
             return {"ok": hist_items(res), "rolled": None if s.rolled is None else qv(s.rolled)}
         if k == "accumulate":
-            return {"ok": hist_items(h.accumulate(H(gens.py_hist_dict(case["other"]))))}
+            other = H(gens.py_hist_dict(case["other"]))
+            form = case.get("other_form", "H")
+            if form == "P" and other.total:
+                from dyce import P
+                other = P(other)                      # a pool is accepted wherever H(...) accepts it: its flattened histogram
+            elif form == "dict":
+                other = dict(other)
+            elif form == "pairs_iter":
+                other = iter(list(other.items()))
+            return {"ok": hist_items(h.accumulate(other))}
         if k == "zero_fill":
-            return {"ok": hist_items(h.zero_fill([gens.py_outcome(o) for o in case["outs"]]))}
+            outs = [gens.py_outcome(o) for o in case["outs"]]
+            style = case.get("outs_style", "list")
+            given = {"list": outs, "iter": iter(outs), "generator": (x for x in outs), "map": map(lambda x: x, outs), "tuple": tuple(outs)}[style]
+            return {"ok": hist_items(h.zero_fill(given))}
         if k == "remove":
             return {"ok": hist_items(h.remove(gens.py_outcome(case["o"])))}
     except (ValueError, TypeError, IndexError, ZeroDivisionError) as e:
